@@ -949,7 +949,8 @@ def selection_cases(tier):
 FN_SIM = 'mc.checks.c13_noise:simhistory'
 SIM_OPS = ['misfit', 'nf:scalar', 'nf:full', 're:scalar', 're:rec', 're:none',
            'sd:full', 'sd:none', 'clean:computed', 'clean:all',
-           'clean:keepresults', 'newsim:same', 'newsim:copy']
+           'clean:keepresults', 'newsim:same', 'newsim:copy', 'touch',
+           'obs:fill', 'obs:gap']
 SIM_STARTS = {'A': {'nf': 'scalar', 're': 'scalar', 'nan': 'none'},
               'B': {'nf': 'src', 're': 'none', 'nan': 'one'}}
 
@@ -1041,6 +1042,28 @@ def simhistory(c):
                 sim.clean(what)
                 if what in ('computed', 'all'):
                     cached, stale = False, False
+            elif op == 'touch':
+                # reading survey attributes (some are cached on first use)
+                sv = sim.survey
+                _ = (sv.isfinite, sv.count, sv.size, sv.shape,
+                     sv.finite_data('observed'), repr(sv))
+            elif op.startswith('obs:'):
+                # the observed data get another NaN pattern (a gap filled, a
+                # datum flagged): explicit edit of the data by the user
+                if op == 'obs:fill':
+                    dobs = dobs.copy()
+                    gaps = np.argwhere(~np.isfinite(dobs))
+                    if len(gaps) == 0:
+                        disabled = True
+                        break
+                    dobs[tuple(gaps[0])] = 0.7 - 0.4j
+                else:
+                    dobs = dobs.copy()
+                    dobs[1, 1, 0] = np.nan + 1j*np.nan
+                sim.survey.data['observed'][...] = dobs
+                fin = np.isfinite(dobs)
+                if cached:
+                    stale = True
             elif op.startswith('newsim:'):
                 # a NEW Simulation on the same survey object (or a copy of
                 # it): nothing of an earlier simulation may survive in it
@@ -1100,7 +1123,7 @@ def sim_cases(depth):
                 # two cleans / two assignments of the same setting in a row
                 # reach the same state as the last one alone
                 if any(a.split(':')[0] == b.split(':')[0] and a != 'misfit'
-                       and not a.startswith('newsim')
+                       and not a.startswith('newsim') and a != 'touch'
                        for a, b in zip(ops, ops[1:])):
                     continue
                 out.append({'start': start, 'ops': list(ops)})
